@@ -369,6 +369,22 @@ func (h *histState) step(op string) string {
 		}
 		a, b, kept, rm := h.al.RemoveGapSites(parseFrac(f[1]), atob(f[2]))
 		return fmt.Sprintf("ok[%d,%d,%s,%s]", a, b, strings.ReplaceAll(encInts(kept), ",", "+"), strings.ReplaceAll(encInts(rm), ",", "+"))
+	case "rmcharsites":
+		if h.al == nil {
+			return "na"
+		}
+		set := []uint8{}
+		if f[1] != "_" {
+			set = []uint8(pctDec(f[1]))
+		}
+		a, b, kept, rm := h.al.RemoveCharacterSites(set, parseFrac(f[2]), atob(f[3]), atob(f[4]), atob(f[5]), atob(f[6]), atob(f[7]))
+		return fmt.Sprintf("ok[%d,%d,%s,%s]", a, b, strings.ReplaceAll(encInts(kept), ",", "+"), strings.ReplaceAll(encInts(rm), ",", "+"))
+	case "rmmajsites":
+		if h.al == nil {
+			return "na"
+		}
+		a, b, kept, rm := h.al.RemoveMajorityCharacterSites(parseFrac(f[1]), atob(f[2]), atob(f[3]), atob(f[4]))
+		return fmt.Sprintf("ok[%d,%d,%s,%s]", a, b, strings.ReplaceAll(encInts(kept), ",", "+"), strings.ReplaceAll(encInts(rm), ",", "+"))
 	case "translate":
 		return errs(h.sb.Translate(atoi(f[1]), atoi(f[2])))
 	case "clone":
